@@ -111,6 +111,7 @@ type pluginCfg struct {
 	Gzip      bool
 	Split     bool
 	FlushMs   int
+	Retry     int // retry option of the plugin (0 = 10)
 	// elasticsearch
 	OpType      string
 	IndexFormat string
@@ -135,6 +136,13 @@ type pluginCfg struct {
 	DefaultTopic string
 }
 
+func (c *pluginCfg) retry() int {
+	if c.Retry > 0 {
+		return c.Retry
+	}
+	return 10
+}
+
 func (c *pluginCfg) tag() string {
 	t := fmt.Sprintf("%s|bs%s|avg%s|w%d", c.Plugin, sizeBucket(c.BatchSize), byteBucket(c.AvgSize), c.Workers)
 	if c.Gzip {
@@ -142,6 +150,9 @@ func (c *pluginCfg) tag() string {
 	}
 	if c.Split {
 		t += "|split"
+	}
+	if c.Retry > 0 {
+		t += fmt.Sprintf("|retry%d", c.Retry)
 	}
 	switch c.Plugin {
 	case "elasticsearch":
@@ -309,7 +320,7 @@ func startSession(c *pluginCfg, scratch string) (*session, error) {
 		cf.BatchOpType = c.OpType
 		cf.SplitBatch = c.Split
 		cf.Retention = cfgDur("1ms")
-		cf.Retry = 10
+		cf.Retry = c.retry()
 		test.NewConfig(cf, cfgParams)
 		// NewConfig applies defaults for empty values only; slices given above are kept.
 		cf.IndexValues = c.IndexValues
@@ -351,7 +362,7 @@ func startSession(c *pluginCfg, scratch string) (*session, error) {
 		cf.BatchFlushTimeout = cfgDur(flush)
 		cf.SplitBatch = c.Split
 		cf.Retention = cfgDur("1ms")
-		cf.Retry = 10
+		cf.Retry = c.retry()
 		test.NewConfig(cf, cfgParams)
 		s.out = p.(pipeline.OutputPlugin)
 		s.out.Start(cf, params)
